@@ -845,6 +845,11 @@ def get_mttkrp_factors(
     U: Union[ttb.ktensor, Sequence[np.ndarray]], n: Union[int, np.integer], ndims: int
 ) -> Sequence[np.ndarray]:
     """Apply standard checks and type conversions for mttkrp factors."""
+    assert (
+        isinstance(n, (int, np.integer))
+        and not isinstance(n, (bool, np.bool_))
+        and 0 <= n < ndims
+    ), "Mode n must be an integer in the range of the number of dimensions"
     if isinstance(U, ttb.ktensor):
         U = U.copy()
         # Absorb lambda into one of the factors but not the one that is skipped
